@@ -9,7 +9,8 @@ package main
 //                        "error"   PipelineFromFile or Run returned an error
 //                        "panic"   a panic was recovered; "panic" = its text, "stack" = the goroutine's frames
 //                                  from the panicking function upwards (function names only)
-//                        "timeout" the run did not return within timeout_ms; "stack" = frames of the job's
+//                        "timeout" the run consumed timeout_ms of CPU time (or 15 x timeout_ms of wall time, for a run that is
+//                                  blocked) without returning; "stack" = frames of the job's
 //                                  goroutine at that moment. The goroutine cannot be stopped, so the worker
 //                                  exits with status 3 right after printing the record.
 //            A stack overflow or another fatal runtime error kills the process (status 2, goroutine dump on
@@ -30,6 +31,7 @@ import (
 	"runtime"
 	"runtime/debug"
 	"strings"
+	"syscall"
 	"time"
 
 	"github.com/grafana/cog/verifapi"
@@ -52,7 +54,17 @@ type c04Result struct {
 	Panic   string   `json:"panic,omitempty"`
 	Stack   []string `json:"stack,omitempty"`
 	Ms      float64  `json:"ms"`
+	CPUMs   float64  `json:"cpu_ms"`
 	Files   int      `json:"files"`
+}
+
+// processCPU is the user + system CPU time this process has consumed.
+func processCPU() time.Duration {
+	var ru syscall.Rusage
+	if err := syscall.Getrusage(syscall.RUSAGE_SELF, &ru); err != nil {
+		return 0
+	}
+	return time.Duration(ru.Utime.Nano() + ru.Stime.Nano())
 }
 
 // framesOf keeps the function names of one goroutine dump, top of stack first.
@@ -136,17 +148,36 @@ func c04Run(args []string) int {
 		done := make(chan c04Result, 1)
 		t0 := time.Now()
 		go func() { done <- c04RunJob(job) }()
-		select {
-		case res := <-done:
-			res.Ms = float64(time.Since(t0).Microseconds()) / 1000
-			if len(res.Err) > 600 {
-				res.Err = res.Err[:600]
+		// The budget is CPU time of this process (one job runs at a time), not wall time: a verdict must not depend on how many
+		// other processes compete for the cores. The wall clock only bounds a run that is blocked without burning CPU.
+		cpu0 := processCPU()
+		tick := time.NewTicker(100 * time.Millisecond)
+		timedOut := false
+	wait:
+		for {
+			select {
+			case res := <-done:
+				res.Ms = float64(time.Since(t0).Microseconds()) / 1000
+				res.CPUMs = float64((processCPU() - cpu0).Microseconds()) / 1000
+				if len(res.Err) > 600 {
+					res.Err = res.Err[:600]
+				}
+				_ = enc.Encode(res)
+				break wait
+			case <-tick.C:
+				budget := time.Duration(job.TimeoutMs) * time.Millisecond
+				if processCPU()-cpu0 >= budget || time.Since(t0) >= 15*budget {
+					timedOut = true
+					break wait
+				}
 			}
-			_ = enc.Encode(res)
-		case <-time.After(time.Duration(job.TimeoutMs) * time.Millisecond):
+		}
+		tick.Stop()
+		if timedOut {
 			buf := make([]byte, 1<<22)
 			buf = buf[:runtime.Stack(buf, true)]
-			res := c04Result{ID: job.ID, Outcome: "timeout", Ms: float64(time.Since(t0).Microseconds()) / 1000}
+			res := c04Result{ID: job.ID, Outcome: "timeout", Ms: float64(time.Since(t0).Microseconds()) / 1000,
+				CPUMs: float64((processCPU() - cpu0).Microseconds()) / 1000}
 			for _, g := range strings.Split(string(buf), "\n\n") {
 				if strings.Contains(g, "main.c04RunJob") {
 					fr := framesOf(g, 200)
